@@ -47,6 +47,8 @@ def valid(r, seq):
     depth = 0
     open1 = open2 = 0
     for s in seq:
+        if open1 and s != "</n1>" and r not in RAW:
+            continue          # inside the nested raw-text element every symbol is plain text, not markup
         if s == "<r>":
             depth += 1
         elif s == "</r>":
